@@ -364,6 +364,15 @@ func judge(prop string, seed uint64, failures []Replay, info *prepInfo, bins map
 		leakedRuns = leaked
 	}()
 	var violations []string
+	var unexplained []string
+	defer func() {
+		if len(unexplained) > 0 && len(violations) == 0 {
+			fatal2("%s: harness nondeterminism", strings.Join(unexplained, "; "))
+		}
+		for _, u := range unexplained {
+			fmt.Printf("NOTE: %s\n", u)
+		}
+	}()
 	knownHits := 0
 	printedKnown := map[string]bool{}
 	dir := filepath.Join(scratch, "cand")
@@ -391,7 +400,10 @@ func judge(prop string, seed uint64, failures []Replay, info *prepInfo, bins map
 				// that depends on map iteration order, on an address, on the time). Replay it
 				// a number of times: if the failure comes back at all, it is the library's.
 				if _, err2 := confirmReplay(bin, &f, f.Class, dir, realDir, false, "", 24); err2 != nil {
-					fatal2("failing run %s (class %s) was executed in a process of its own and still did not reproduce (%v): harness nondeterminism", f.Subseed, f.Class, err)
+					// neither the library's nor anybody's: remembered, and fatal only if nothing else explains the run
+					unexplained = append(unexplained, fmt.Sprintf("failing run %s (class %s) was executed in a process of its own and did not reproduce in 28 replays (%v)", f.Subseed, f.Class, err))
+					seenClass[key]--
+					continue
 				}
 				isErratic = true
 			} else {
@@ -461,6 +473,10 @@ func judge(prop string, seed uint64, failures []Replay, info *prepInfo, bins map
 		}
 		path := filepath.Join(envOr("VERIF_REPLAY_DIR", filepath.Join(verifDir, "replays")), fmt.Sprintf("%s-seed%d-%s-%s.json", prop, seed, final.Class, f.Subseed))
 		os.MkdirAll(filepath.Dir(path), 0o755)
+		if n := len(final.Trace); n > 6000 {
+			// the trace is an illustration (`--replay` prints all of it again); the decisions are what replays
+			final.Trace = append(append(append([]string(nil), final.Trace[:1000]...), fmt.Sprintf("... %d trace lines left out ...", n-6000)), final.Trace[n-5000:]...)
+		}
 		b, _ := json.MarshalIndent(final, "", " ")
 		os.WriteFile(path, append(b, '\n'), 0o644)
 		fmt.Printf("violation: property=%s class=%s: %s\n", prop, final.Class, oneLine(final.Message, 600))
